@@ -13,8 +13,9 @@ def parseSettings (j : Json) : Option Settings := do
   let masks ← getStrs j "masks"
   let ignores ← getStrs j "ignores"
   let dirs ← getStrs j "dirs"
+  -- `os.path.isdir` does not mind trailing slashes; `dirs` lists the live directories without them
   let dl := dirs.map String.toList
-  pure ⟨offset, protects.map String.toList, masks.map String.toList, ignores.map String.toList, fun p => dl.contains p⟩
+  pure ⟨offset, protects.map String.toList, masks.map String.toList, ignores.map String.toList, fun p => dl.contains (Pkgcore.C22.rstripSlash p)⟩
 
 def parseLive (j : Json) : Option LiveFile := do
   pure ⟨← chars j "dir", ← chars j "base", ← getNat j "content"⟩
